@@ -7,7 +7,7 @@ from ..py.guards import AEval, Reach, ModelError, always_raises, resolved_text, 
 from ..py.index import u, walk_shallow, pos
 from . import common
 
-STRINGS = ["p0", "p12", "p", "", "p0_shift", "p1b", "q0", "P0", "0p", "pp1", "p-1", "p 1", "ap0", "p007", "hello"]
+STRINGS = ["p0", "p12", "p", "", "p0_shift", "p1_0", "p1b", "q0", "P0", "0p", "pp1", "p-1", "p 1", "ap0", "p007", "hello"]
 ARRAY = "listener.BlackbirdListener.exitArrayvar"
 EVAL = "auxiliary._expression"
 SER = "program.BlackbirdProgram.serialize"
@@ -112,14 +112,20 @@ def c15_1(rep, ix, predicate_only=False):
     f = ix.func("listener.is_ptype")
     from ..py import norm as _norm
     value = _norm.as_expression(f.node.body)
-    if value is None:
-        raise Inconclusive("is_ptype is not a side-effect-free expression of its argument")
-    body = [ast.Return(value=value)]
     for s in STRINGS:
         if not s:
             continue
         try:
-            got = eval_pred(ix, f.mod, body[0].value, {f.params[0]: s})
+            if value is not None:
+                got = eval_pred(ix, f.mod, value, {f.params[0]: s})
+            else:
+                # a predicate written with statements (early returns, try / except around a conversion): interpreted on the model string
+                from ..py.guards import run_block
+
+                def atom(node, s=s):
+                    return s if isinstance(node, ast.Name) and node.id == f.params[0] else AEval.NO
+                r = run_block(f.node.body, atom)
+                got = bool(r[1]) if r[0] == "return" else ("raises " + "/".join(sorted(r[1])) if r[0] == "raise" else False)
         except ModelError as e:
             got = "raises " + str(e)
         rep.check(got == is_p(s), R, ix.site(f), "is_ptype(%r) is %s" % (s, is_p(s)), "evaluates to %s" % got, key="is_ptype|" + s)
